@@ -65,6 +65,8 @@ type vConn struct {
 	readsAfterClose int
 	inner       *vConn // the plaintext side of the TLS model
 	id          int
+	writeFailed bool
+	writesAfterFailure int
 }
 
 func vNewConn(data []byte) *vConn {
@@ -81,10 +83,14 @@ func (c *vConn) Read(p []byte) (int, error) {
 
 func (c *vConn) Write(p []byte) (int, error) {
 	c.writes++
+	if c.writeFailed {
+		c.writesAfterFailure++
+	}
 	if c.closed > 0 {
 		return 0, net.ErrClosed
 	}
 	if c.failWriteAt >= 0 && c.writes > c.failWriteAt {
+		c.writeFailed = true
 		return 0, errVerifIO
 	}
 	c.out = append(c.out, p...)
